@@ -180,7 +180,7 @@ func VsymC20() {
 		full := op == nOps-1
 		shape := 0
 		if full {
-			shape = vr.Choice("sourceShape", 8)
+			shape = vr.Choice("sourceShape", 9)
 		}
 		switch shape {
 		case 1:
@@ -198,6 +198,8 @@ func VsymC20() {
 			src.subNamed = true
 		case 7:
 			src.candidate = "notation-Foo" // the metadata names the plugin in another letter case
+		case 8:
+			src.candidate = "linux-notation-foo" // "notation-" somewhere in the file name, not in front of it
 		}
 		if full {
 			src.candExec = vr.Choice("candidateExec", 2) == 1
